@@ -71,6 +71,7 @@ var (
 type env struct {
 	dir           string
 	p0, p1, pbusy int
+	p3            int // free for TCP; its UDP side is taken when the history uses F12
 	busy          net.Listener
 }
 
@@ -124,6 +125,9 @@ func (e *env) config(name string) string {
 		return site("F9", "") + fmt.Sprintf("127.0.0.1:%d {\n\tstatus 204 /ok\n}\n127.0.0.1:%d {\n\tstatus 204 /ok\n}\n", e.p1, e.pbusy)
 	case "F10-startup-callback-fails":
 		return site("F10", "\tlog / "+filepath.Join(e.dir, "afile", "sub", "access.log")+"\n")
+	case "F12-udp-port-in-use":
+		// (with QUIC on every server also opens a UDP socket: the TCP listener of the second site is open when that fails)
+		return site("F12", "") + fmt.Sprintf("127.0.0.1:%d {\n\tstatus 204 /ok\n}\n", e.p3)
 	case "F11-late-setup-error-after-log-and-on":
 		return site("F11", "\ton startup /bin/true\n\tlog / "+filepath.Join(e.dir, "access.log")+" \"{status}\" {\n\t\trotate_size 1\n\t}\n\tproxy / {\n\t}\n")
 	}
@@ -204,6 +208,22 @@ func child(h history) {
 		panic(err)
 	}
 	e.busy, e.pbusy = busy, busy.Addr().(*net.TCPAddr).Port
+	usesF12 := false
+	for _, a := range h.Attempts {
+		usesF12 = usesF12 || strings.HasPrefix(a.Config, "F12-")
+	}
+	if usesF12 {
+		e.p3 = freePort()
+		if *flagPortBase > 0 {
+			e.p3 = *flagPortBase + 3
+		}
+		httpserver.QUIC = true
+		udp, err := net.ListenPacket("udp", fmt.Sprintf("127.0.0.1:%d", e.p3))
+		if err != nil {
+			panic(err)
+		}
+		defer udp.Close()
+	}
 	os.Chdir(dir)
 	res := childResult{}
 	casket.RegisterCasketfileLoader("verif", casket.LoaderFunc(func(serverType string) (casket.Input, error) {
@@ -375,6 +395,11 @@ func runChild(h history) (r childResult, err error) {
 	return
 }
 
+// crashErr: the child process was terminated by a panic.
+type crashErr string
+
+func (c crashErr) Error() string { return "process terminated: " + string(c) }
+
 var portSeq atomic.Int64
 
 func runChildOnce(h history) (childResult, error) {
@@ -387,6 +412,14 @@ func runChildOnce(h history) (childResult, error) {
 	var r childResult
 	i := strings.LastIndex(string(out), "CHILD {")
 	if i < 0 {
+		if ee, ok := err.(*exec.ExitError); ok {
+			// a Go process that ends with a panic (also one in a goroutine, which nothing can recover) exits with status 2
+			for _, l := range strings.Split(string(ee.Stderr), "\n") {
+				if strings.HasPrefix(l, "panic:") || strings.HasPrefix(l, "fatal error:") {
+					return r, crashErr(l)
+				}
+			}
+		}
 		return r, fmt.Errorf("child produced no result (err=%v): %.300s", err, out)
 	}
 	line := string(out)[i+6:]
@@ -422,8 +455,8 @@ func main() {
 		return
 	}
 	rep := kit.NewReport("C08", "model_checking",
-		"every history of <=2 (thorough 3) attempts over {validate, Instance.Restart, real SIGUSR1} x {13 failing configurations (one per failure kind and stage), 4 valid ones}, each followed by each of 4 valid final configurations, one child process per history; after every failed attempt: listening sockets (inodes and descriptor count), running site and event hooks unchanged; the final configuration must load within the backstop and answer a battery exactly as in a fresh process; distinct_nontrivial = distinct histories classes")
-	failing := []string{"F1-syntax", "F2-unknown-directive", "F3-htpasswd-missing", "F3b-htpasswd-malformed", "F4-log-bad-roller", "F5-proxy-bad-second", "F6-tls-missing-cert", "F7-on-after-valid-on", "F8-missing-import", "F9-port-in-use", "F10-startup-callback-fails", "F11-late-setup-error-after-log-and-on"}
+		"every history of <=2 (thorough 3) attempts over {validate, Instance.Restart, real SIGUSR1} x {14 failing configurations (one per failure kind and stage), 4 valid ones}, each followed by each of 4 valid final configurations, one child process per history; after every failed attempt: listening sockets (inodes and descriptor count), running site and event hooks unchanged; the final configuration must load within the backstop and answer a battery exactly as in a fresh process; distinct_nontrivial = distinct histories classes")
+	failing := []string{"F1-syntax", "F2-unknown-directive", "F3-htpasswd-missing", "F3b-htpasswd-malformed", "F4-log-bad-roller", "F5-proxy-bad-second", "F6-tls-missing-cert", "F7-on-after-valid-on", "F8-missing-import", "F9-port-in-use", "F10-startup-callback-fails", "F11-late-setup-error-after-log-and-on", "F12-udp-port-in-use"}
 	valid := []string{"V1-htpasswd", "V2-rolled-log", "V3-on", "V4-two-listeners"}
 	kinds := []string{"validate", "restart", "sigusr1"}
 	var atts []attempt
@@ -494,6 +527,15 @@ func main() {
 	states := map[string]bool{}
 	transitions := 0
 	for i, h := range hs {
+		if ce, ok := errs[i].(crashErr); ok {
+			// (four processes in a row ended that way: see runChild)
+			last := "start"
+			if len(h.Attempts) > 0 {
+				last = h.Attempts[len(h.Attempts)-1].Kind + "/" + h.Attempts[len(h.Attempts)-1].Config
+			}
+			rep.Violation("C08/process-terminated/after="+last, "the history ended the whole process: "+string(ce), c08case{History: h})
+			continue
+		}
 		if errs[i] != nil {
 			rep.Broken("history %v: %v", h, errs[i])
 		}
@@ -502,7 +544,7 @@ func main() {
 			transitions++
 			states[fmt.Sprintf("%s/%s/%v", st.Attempt.Kind, st.Attempt.Config, st.Accepted)] = true
 			expectOK := strings.HasPrefix(st.Attempt.Config, "V")
-			if st.Attempt.Kind == "validate" && (strings.HasPrefix(st.Attempt.Config, "F9-") || strings.HasPrefix(st.Attempt.Config, "F10-")) {
+			if st.Attempt.Kind == "validate" && (strings.HasPrefix(st.Attempt.Config, "F9-") || strings.HasPrefix(st.Attempt.Config, "F10-") || strings.HasPrefix(st.Attempt.Config, "F12-")) {
 				expectOK = true // validation neither binds ports nor runs startup callbacks
 			}
 			if strings.HasPrefix(st.Err, "HANG") {
